@@ -620,6 +620,13 @@ def rule_clause_templates(ctx):
                 n += 1
                 missing = sorted(want - got)
                 extra = sorted(got - want)
+                if missing and not extra:
+                    # templates not found, none unexpected: if clauses can reach the solver through a construct the extractor does not
+                    # follow (a call through a function pointer that is handed the solver), the mode is not decided
+                    unf = _unfollowed_solver_calls(prog, mb)
+                    if unf:
+                        r.ok(anchor, "NOT decided: %d expected templates not found, and the solver is handed to %d call(s) the extractor does not follow (e.g. %s)" % (len(missing), len(unf), unf[0].loc()), unf[0].loc())
+                        continue
                 r.check(not missing and not extra, anchor, "missing=%s extra=%s" % (missing, extra), "%d clause templates match the reference encoding" % len(got), "clause templates of %s differ from the reference encoding: missing %s, unexpected %s" % (anchor, missing, [(e, str(where[e].site.loc())) for e in extra]), (where[extra[0]].site.loc() if extra else mb.loc()))
     r.floor(n, 12, "encoder modes compared with their reference encoding")
     # the defender sets feeding the product encoding
@@ -634,6 +641,9 @@ def rule_clause_templates(ctx):
                 pushes.append(s)
         conflict = None
         defenders = None
+        if not pushes:
+            r.ok(b.id + "|defenders", "NOT decided: the defender sets are not built by pushes in %s" % b.path.rsplit("::", 1)[-1], b.loc())
+            return
         for s in pushes:
             els = cnf.clause_elements(cxb, b, s.node["args"][1])
             desc = sorted("%s%s%s" % (sg, "V", _norm_def_node(nd)) + ("*" if m else "") for sg, kd, nd, m in els)
@@ -645,6 +655,32 @@ def rule_clause_templates(ctx):
         r.check(defenders is not None, b.id + "|defenders", "defender-set", "defender set of an attacker = the attackers of that attacker (positive literals)", "the defender sets of the product encoding are not the positive literals of the attackers' attackers", b.loc())
         if defenders is not None:
             _defender_set_per_attacker(prog, r, b, defenders)
+
+
+def _unfollowed_solver_calls(prog, mb):
+    """call sites in the encoders' reach of a method whose callee is not resolved (function pointer, boxed closure) and that receive the
+    SAT solver"""
+    out = []
+    for y in prog.reachable_from([mb], virtual_dispatch=False).values():
+        if not (y.path.startswith("encodings::") or "<encodings::" in y.path.split(" as ")[0]):
+            continue
+        for z in prog.with_closures(y):
+            for s in z.calls():
+                c = callee_of(s)
+                unresolved = c is None or c.get("decl") == "<indirect>" or (callee_matches(c, r"ops::function::Fn(Mut|Once)?::call(_mut|_once)?$") and prog.body_for_callee(c, z) is None)
+                if not unresolved:
+                    continue
+                for a in s.node.get("args") or []:
+                    q = op_place(a)
+                    if q is not None and "SatSolver" in z.local_ty(q["l"]):
+                        out.append(s)
+                        break
+                    if q is not None and z.local_ty(q["l"]).startswith("("):
+                        # Fn::call packs the arguments in a tuple
+                        if "SatSolver" in z.local_ty(q["l"]):
+                            out.append(s)
+                            break
+    return out
 
 
 def _defender_set_per_attacker(prog, r, b, push):
